@@ -94,22 +94,31 @@ def parseGroup (s : String) : Option (Option (List (SvcId × Nat))) :=
 def parseTx (t : List String) : Option Tx :=
   match t with
   | ["xfer", f, to, amt] => some (.xfer f to (parseInt? amt))
-  | "ibtp" :: signer :: f :: to :: idx :: typ :: tmo :: grp :: pk :: _ =>
+  | "ibtp" :: signer :: f :: to :: idx :: typ :: tmo :: grp :: pk :: more =>
+    -- tenth token: the Extra field
+    let ext : Option Ext := match more with
+      | [] => some .none
+      | ["x:bf"] => some .beginFailure
+      | ["x:br"] => some .beginRollback
+      | ["x:ok"] => some .other
+      | ["x:junk"] => some .junk
+      | _ => none
     match idx.toNat?, parseInt? tmo, parseGroup grp with
     | some idx, some tmo, some grp =>
       let typ := if typ == "req" then some IType.interchain else if typ == "ok" then some .receiptSuccess
         else if typ == "fail" then some .receiptFailure else if typ == "rb" then some .receiptRollback
         else typ.toNat?.map IType.other
       let pk := if pk == "ok" then some ProofKind.ok else if pk == "none" then some .none else if pk == "bad" then some .bad else if pk == "false" then some .plainFalse
-        -- signatures of another BitXHub's validators: only meaningful once that hub is registered (a governance operation the
-        -- model does not follow; the comparison of such a history has ended by then): a well-formed proof for the model
-        else if pk.startsWith "msig" then some .ok else none
+        -- signatures of the first k validators of another BitXHub (registered in the world option hub=1; a hub registered by
+        -- governance inside a history is not followed by the model: the comparison of such a history has ended by then)
+        else if pk.startsWith "msig" then ((pk.drop 4).toNat?.map ProofKind.msig) else none
       -- a destination whose chain id equals its BitXHub id addresses a hub-level (inter-broker) service: outside the model
       let hubSvc := match parseSvc to with | some d => d.chain == d.bxh | none => false
       if hubSvc then some (.bvm signer "?ibtp" "?" []) else
-      match typ, pk with
-      | some typ, some pk => some (.ibtp signer { frm := parseSvc f, to := parseSvc to, index := idx, typ := typ, timeout := tmo, group := grp } pk)
-      | _, _ => some (.bvm signer "?ibtp" "?" [])
+      match typ, pk, ext with
+      | some typ, some pk, some ext =>
+        some (.ibtp signer { frm := parseSvc f, to := parseSvc to, index := idx, typ := typ, timeout := tmo, group := grp, ext := ext } pk)
+      | _, _, _ => some (.bvm signer "?ibtp" "?" [])
     -- an IBTP whose index / timeout / group the op language cannot express (malformed group keys, ...): outside the model
     | _, _, _ => some (.bvm signer "?ibtp" "?" [])
   | "bvm" :: signer :: c :: m :: args =>
@@ -211,8 +220,13 @@ def step (s : St) (ws : List String) : St × String :=
   | "world" :: opts =>
     let price := ((parseKV opts "price").bind String.toNat?).getD 1
     let audit := parseKV opts "audit" == some "1"
-    let cfg : Cfg := { price := price, audit := audit }
-    ({ cfg := cfg, node := initNode, started := true, hist := [(initNode.height, initNode)] }, s!"ok h={initNode.height}")
+    -- hub=1: another BitXHub (9999, four validators) is a registered, available relay chain; its registration took blocks 7..11
+    let hub := parseKV opts "hub" == some "1"
+    let cfg : Cfg := { price := price, audit := audit, hubs := if hub then ["9999"] else [] }
+    let n0 : Node := if hub then
+        { initNode with height := 11, led := { initNode.led with bal := initNode.led.bal ++ [("ca9", 100000000000 - 210000)] } }
+      else initNode
+    ({ cfg := cfg, node := n0, started := true, hist := [(n0.height, n0)] }, s!"ok h={n0.height}")
   | "block" :: rest => doBlock s rest
   | ["propose", _] => (s, "ok")       -- harness bookkeeping of proposal references: nothing for the model
   | "reorg" :: hh :: rest =>
